@@ -906,6 +906,10 @@ fn case_repeat(kv: &Kv) -> String {
         Box::new(|x| 3 * x + 7),
         Box::new(|x| 1_000_000_007 - x),
         Box::new(|x| x.wrapping_mul(0x9E3779B97F4A7C15) ^ 0xD1B54A32D192ED03),
+        // values that all collide when truncated to 32 bits, values with the top bit set, the extremes
+        Box::new(|x| x << 32),
+        Box::new(|x| (x << 33) | (1u64 << 63) | 1),
+        Box::new(|x| u64::MAX - x),
     ];
     let maps = std::sync::Arc::new(maps);
     let mut handles = vec![];
